@@ -46,6 +46,45 @@ func stagesOf(fn *ast.FuncDecl) map[string]stageInfo {
 	return out
 }
 
+// zeroLiteralIssue explains why e is not the zero value of its type ("" if it is).
+func zeroLiteralIssue(rs *Resid, e ast.Expr) string {
+	if cl, ok := unparen(e).(*ast.CompositeLit); ok && len(cl.Elts) == 0 {
+		switch t := cl.Type.(type) {
+		case *ast.ArrayType:
+			if t.Len == nil {
+				return "an empty non-nil slice literal; the zero value of a slice is nil"
+			}
+		case *ast.MapType:
+			return "an empty non-nil map literal; the zero value of a map is nil"
+		case *ast.Ident:
+			if h := rs.hole(t.Name); h != nil {
+				switch k := kindOfVal(h.Val); k {
+				case "*types.Slice", "*types.Map", "*types.Pointer", "*types.Chan", "*types.Signature", "*types.Interface":
+					return "a composite literal of a " + strings.TrimPrefix(k, "*types.") + " type; its zero value is nil"
+				case "*types.Struct", "*types.Array":
+					return ""
+				default:
+					// kind not established: a composite literal is the zero value only if slices and maps were ruled out
+					excluded := map[string]bool{}
+					if u := underlyingVal(h.Val); u != nil {
+						for _, nk := range u.notKinds {
+							excluded[nk] = true
+						}
+					}
+					if !excluded["*types.Slice"] || !excluded["*types.Map"] {
+						return "a composite literal for a type that may be a slice or a map on this path; their zero value is nil, not an empty non-nil value"
+					}
+				}
+			}
+		}
+		return ""
+	}
+	if isZeroLiteral(e) {
+		return ""
+	}
+	return "not a zero literal"
+}
+
 func isZeroLiteral(e ast.Expr) bool {
 	switch x := unparen(e).(type) {
 	case *ast.BasicLit:
@@ -129,8 +168,8 @@ func chainIssues(rs *Resid, fn *ast.FuncDecl, body *ast.BlockStmt, stages map[st
 									iss(ret, "wrong-error", "on failure of %s returns %s instead of that stage's error %s", name, rs.src(ret.Results[len(ret.Results)-1]), ev)
 								}
 								for _, r := range ret.Results[:len(ret.Results)-1] {
-									if !isZeroLiteral(r) {
-										iss(ret, "non-zero-on-failure", "on failure of %s returns %s next to the error; every non-error result must be the zero value of its type", name, rs.src(r))
+									if why := zeroLiteralIssue(rs, r); why != "" {
+										iss(ret, "non-zero-on-failure", "on failure of %s returns %s next to the error (%s); every non-error result must be the zero value of its type", name, rs.src(r), why)
 									}
 								}
 							}
@@ -167,8 +206,8 @@ func chainIssues(rs *Resid, fn *ast.FuncDecl, body *ast.BlockStmt, stages map[st
 						iss(ret, "wrong-error", "returns %s instead of the supplied error", rs.src(ret.Results[len(ret.Results)-1]))
 					}
 					for _, r := range ret.Results[:len(ret.Results)-1] {
-						if !isZeroLiteral(r) {
-							iss(ret, "non-zero-on-failure", "returns %s next to the supplied error; every non-error result must be the zero value", rs.src(r))
+						if why := zeroLiteralIssue(rs, r); why != "" {
+							iss(ret, "non-zero-on-failure", "returns %s next to the supplied error (%s); every non-error result must be the zero value", rs.src(r), why)
 						}
 					}
 				}
